@@ -343,6 +343,33 @@ def specials():
 
     out.append(("vmdk-descriptor", "chain-of-30-deltas-missing-base", vmdk_chain_missing_base(30), 20, 16))
 
+    def sequential(kind):
+        def run(work):
+            # a valid, well compressible image read front to back in 256 KiB requests: what a request needs is given back afterwards
+            if kind == "vmdk-stream":
+                from dissect.hypervisor.disk.vmdk import VMDK
+                ng = 2560
+                vf, _ = enc_vmdk.build_hosted([("D", k + 1) for k in range(ng)], [True] * (-(-ng // 512)), capacity=ng * 128, grain=128, gtes=512, footer=True,
+                                              compressed=True, lba=True, max_pos=ng + 1)
+                op = lambda: VMDK(vf)  # noqa: E731
+            else:
+                from dissect.hypervisor.disk.qcow2 import QCow2
+                nc = 2560
+                l2 = {c: {"t": "C", "h": c, "sub": []} for c in range(nc)}
+                vf, _, _ = enc_qcow2.build({"ext": False, "datafile": False, "l2n": 8192, "s": 1, "l1": {0: True}, "l2": l2, "back": -1, "size": nc}, cluster_bits=16, K=1)
+                op = lambda: QCow2(vf)  # noqa: E731
+
+            def go():
+                s = op()
+                while True:
+                    if not s.read(256 << 10):
+                        break
+            return go
+        return run
+
+    out.append(("vmdk-stream", "sequential-read-of-160MiB-in-256KiB-requests", sequential("vmdk-stream"), 2048, 256))
+    out.append(("qcow2", "sequential-read-of-160MiB-compressed-in-256KiB-requests", sequential("qcow2"), 2048, 256))
+
     def hyperv_selfref(mode):
         def run(work):
             nodes = [{"id": 1, "parent": 0, "tbl": 1, "key": "k", "type": enc_hyperv.T_INT, "value": 1}]
